@@ -1,6 +1,6 @@
 SPECIFICATION Spec
 CONSTANTS
-  CfgNames = {"one", "sizes", "wts", "ties", "zero", "dup", "lead0", "fam", "allzero", "mix3"}
+  CfgNames = {"one", "sizes", "wts", "ties", "zero", "dup", "lead0", "fam", "allzero", "mix3", "hostbits"}
   LibVers = {0, 1, 2, 3, 4}
   Fams = {4, 6}
   NSel = 1
@@ -8,6 +8,7 @@ CONSTANTS
   ProcSeedKs = {}
   RNG = "local"
   AddrBytes = "fill"
+  NetBase = "masked"
 VIEW view
 INVARIANTS TypeOK Contained WellFormed RandPortFromSubnet Pure UnknownGenerationFails NoSpuriousError ZeroWeightNeverChosen NoWeightFails
 CHECK_DEADLOCK FALSE
